@@ -95,10 +95,14 @@ func (fr *Frame) ioInvoke(cc *ssa.CallCommon, recv Val, args []Val, pos token.Po
 		n := FreshVar("ion", SInt)
 		buf := args[0].T
 		c.assume(And(BVCmp("bvsle", BVLit(0, 64), n), BVCmp("bvsle", n, DataField_(buf, 2))))
+		er := fr.freshErr("ioerr")
 		if cc.Method.Name() == "Read" {
 			fr.havocElems(buf, types.Typ[types.Uint8])
+			// a single Read may legally return fewer bytes than asked for without an error; a decoder that does
+			// not notice has consumed a truncated value (ghost flag, part of vcErrorRaised)
+			fr.ghostOr("ghost:shortRead", And(BVCmp("bvslt", n, DataField_(buf, 2)), Eq(DataField_(er, 0), BVLit(0, 32))))
 		}
-		return Val{Tuple: []Val{{T: n}, {T: fr.freshErr("ioerr")}}}, true
+		return Val{Tuple: []Val{{T: n}, {T: er}}}, true
 	case "Error":
 		r := FreshVar("errstr", SSlice)
 		c.assume(sliceWF(r))
